@@ -363,3 +363,20 @@ Proof.
   refine (sim_holds_partial cs ord (R8 cs) (mon_C08 cs) W_C08 (R8_init cs ord) _ (W_C08_mono cs) evs s Hacc HW).
   intros s0 o [th e] s' HR Hs. exact (R8_step cs s0 o th e s' HR Hs).
 Qed.
+
+(* the same with the two flags spelled out, and with the predicate the checks use (no window at all) *)
+Lemma C08_main_flags_lemma : forall cs ord evs s,
+  accept (init cs ord) evs = Some s ->
+  w_dup (final_obs cs evs) = false -> w_zombie (final_obs cs evs) = false -> holds_C08 cs evs = true.
+Proof.
+  intros cs ord evs s Hacc Hd Hz. apply (C08_main_lemma cs ord evs s Hacc). unfold W_C08. now rewrite Hd, Hz.
+Qed.
+
+Lemma C08_no_windows_lemma : forall cs ord evs s,
+  accept (init cs ord) evs = Some s -> no_windows cs evs = true -> holds_C08 cs evs = true.
+Proof.
+  intros cs ord evs s Hacc Hn. apply (C08_main_lemma cs ord evs s Hacc).
+  unfold no_windows, windows_of in Hn. apply negb_true_iff in Hn. cbn in Hn.
+  unfold W_C08. destruct (w_zombie _); [discriminate Hn|]. destruct (w_dup _); [|reflexivity].
+  cbn in Hn. rewrite !orb_true_r in Hn. discriminate Hn.
+Qed.
